@@ -1,4 +1,8 @@
-import DcmVerif.Props.SourceMeta
+import DcmVerif.Props.Source_classes
+import DcmVerif.Props.Source_simplify
+import DcmVerif.Props.Source_shapes
+import DcmVerif.Props.Source_wrapsplit
+import DcmVerif.Props.Source_wrapmerge
 import DcmVerif.Props.C05_wrap
 import DcmVerif.Proofs.Total
 /-! Property theorems for C05. Statements only; proofs are by reference to `Proofs/`. -/
